@@ -145,20 +145,11 @@ theorem settled_event_no_write (env : Env) (t : State E) (hb : t.base = some t.e
 
 /-! ### the guard under which no progress record survives -/
 
-/-- the pass that will close the cycle executes handlers, or nothing is recorded at all -/
+/-- The cause has a handler reason (creation, update, resuming) — so the cycle will be closed by a pass
+    that purges every owned record, with or without selected handlers — or nothing is recorded at all.
+    What it excludes: the no-op cause (last-handled = essence, nothing initial) over leftover records. -/
 def Purging (env : Env) (s : State E) : Prop :=
-  (isHandler s = true ∧ (env.sel (causeOf s)).isEmpty = false) ∨ (∀ i ∈ env.owned, s.P i = none)
-
-theorem norec_pass (env : Env) (s : State E) (hn : ∀ i ∈ env.owned, s.P i = none)
-    (hr : handlerReasons.contains (cfgOf env s).reason = true) (he : (cfgOf env s).selected.isEmpty = true) :
-    ∀ i ∈ env.owned, (pass env s).P' i = none := by
-  intro i hi
-  unfold pass
-  rw [cycle_no_handlers _ _ _ _ _ hr he]
-  simp only [midStore]
-  split
-  · simp [purge, show i ∈ (cfgOf env s).owned from hi]
-  · exact hn i hi
+  isHandler s = true ∨ (∀ i ∈ env.owned, s.P i = none)
 
 theorem purging_step (env : Env) (s : State E) (hp : s.pending = true) (hpm : env.prematch = true)
     (hg : Purging env s) :
@@ -173,24 +164,13 @@ theorem purging_step (env : Env) (s : State E) (hp : s.pending = true) (hpm : en
       have hnone : ∀ i ∈ env.owned, (pass env s).P' i = none := by
         cases he : (cfgOf env s).selected.isEmpty
         · exact closed_purges (cfgOf env s) s.P s.now s.now env.exec hr he hc
-        · rcases hg with ⟨_, hne⟩ | hn
-          · have he' : (env.sel (causeOf s)).isEmpty = true := he
-            rw [he'] at hne; cases hne
-          · exact norec_pass env s hn hr he
+        · exact (closed_purges_skip (cfgOf env s) s.P s.now s.now env.exec hr he).2
       rcases loopStep_cases env s hp hpm with ⟨_, h⟩ | ⟨d, _, _, h⟩ | ⟨_, _, h⟩
       · left; rw [h]; exact ⟨rfl, Or.inr (by rw [hP']; exact hnone)⟩
       · left; rw [h]; exact ⟨rfl, Or.inr (by rw [hP']; exact hnone)⟩
       · right; rw [h]; exact ⟨rfl, by rw [hP']; exact hnone⟩
     · have hc' : (pass env s).closed = false := by simpa using hc
       obtain ⟨now', w, h⟩ := open_next env s hp hpm hh hc'
-      have hne : (env.sel (causeOf s)).isEmpty = false := by
-        cases he : (env.sel (causeOf s)).isEmpty
-        · rfl
-        · exfalso
-          have := cycle_no_handlers (cfgOf env s) s.P s.now s.now env.exec hr he
-          unfold pass at hc'
-          rw [this] at hc'
-          cases hc'
       left
       rw [h]
       refine ⟨rfl, Or.inl ?_⟩
@@ -198,9 +178,9 @@ theorem purging_step (env : Env) (s : State E) (hp : s.pending = true) (hpm : en
         causeOf_congr s _ (by simp [nextState, hc']) rfl rfl (by simp [nextState, hc'])
       unfold isHandler
       rw [hcz]
-      exact ⟨hh, hne⟩
+      exact hh
   · have hh' : isHandler s = false := by simpa using hh
-    rcases hg with ⟨h1, _⟩ | hn
+    rcases hg with h1 | hn
     · rw [h1] at hh'; cases hh'
     · have hpass : pass env s = { invoked := [], P' := s.P, closed := false, delays := [] } :=
         cycle_not_handler_reason (cfgOf env s) s.P s.now s.now env.exec hh'
